@@ -5,6 +5,7 @@
 set -u
 N=$1; P=$2; TIER=${3:-quick}
 SRC=/tmp/seed/$N/SEED
+[ -f $SRC/patch.diff ] || SRC=/verif/seeded/$N
 [ -f $SRC/patch.diff ] || { echo "no patch in $SRC"; exit 9; }
 WT=/tmp/seedeval-$N
 git -C /repo worktree remove --force $WT 2>/dev/null
